@@ -388,3 +388,50 @@ pub fn pure(toks: &[&str]) -> String {
     }
     out.join(" ")
 }
+
+/// ks: the exact Kolmogorov distance between the law induced by all 2^24 first-word patterns of a single-draw f32 sampler and the
+/// documented CDF (evaluated in f64), against the property's resolution bound 2^-24 (1.5 + 8 sup|x f(x)|) (property C13).
+/// `ks <family> <params f32 bits> <seedhex>` -> `D=<ks> bound=<b> M=<sup|x f|> nonfinite=<n> argmax=<k>:<value>`
+pub fn ks(toks: &[&str]) -> String {
+    let family = toks[1];
+    let ps = split_params(toks[2]);
+    let seed = u64::from_str_radix(toks[3], 16).expect("seed");
+    let p: Vec<f64> = ps.iter().map(|s| f32::from_hex(s) as f64).collect();
+    let d = match build(family, "f32", &ps) { Ok(d) => d, Err(e) => return e };
+    let mut st = seed;
+    let low = splitmix(&mut st) & ((1u64 << 40) - 1);
+    let n = 1usize << 24;
+    let mut v: Vec<f64> = Vec::with_capacity(n);
+    for k in 0u64..(n as u64) {
+        let mut rng = ScriptRng::new(vec![(k << 40) | low], seed ^ 0x5555);
+        match catch_unwind(AssertUnwindSafe(|| (d.0)(&mut rng))) {
+            Ok(Val::F(x, _, _)) => v.push(x),
+            _ => v.push(f64::NAN),
+        }
+    }
+    let nonfinite = v.iter().filter(|x| !x.is_finite()).count();
+    let mut s: Vec<f64> = v.iter().cloned().filter(|x| !x.is_nan()).collect();
+    s.sort_by(|a, b| a.partial_cmp(b).unwrap());
+    let pi = core::f64::consts::PI;
+    let (cdf, pdf): (Box<dyn Fn(f64) -> f64>, Box<dyn Fn(f64) -> f64>) = match family {
+        "cauchy" => { let (x0, g) = (p[0], p[1]); (Box::new(move |x| 0.5 + ((x - x0) / g).atan() / pi), Box::new(move |x| 1.0 / (pi * g * (1.0 + ((x - x0) / g).powi(2))))) }
+        "pareto" => { let (xm, a) = (p[0], p[1]); (Box::new(move |x| if x < xm { 0.0 } else { 1.0 - (xm / x).powf(a) }), Box::new(move |x| if x < xm { 0.0 } else { a * xm.powf(a) / x.powf(a + 1.0) })) }
+        "weibull" => { let (l, k) = (p[0], p[1]); (Box::new(move |x| if x <= 0.0 { 0.0 } else { -(-(x / l).powf(k)).exp_m1() }), Box::new(move |x| if x <= 0.0 { 0.0 } else { k / l * (x / l).powf(k - 1.0) * (-(x / l).powf(k)).exp() })) }
+        "gumbel" => { let (m, b) = (p[0], p[1]); (Box::new(move |x| (-(-(x - m) / b).exp()).exp()), Box::new(move |x| { let z = (x - m) / b; (-(z + (-z).exp())).exp() / b })) }
+        "frechet" => { let (m, sg, a) = (p[0], p[1], p[2]); (Box::new(move |x| if x <= m { 0.0 } else { (-((x - m) / sg).powf(-a)).exp() }), Box::new(move |x| if x <= m { 0.0 } else { let z = (x - m) / sg; a / sg * z.powf(-1.0 - a) * (-z.powf(-a)).exp() })) }
+        "triangular" => { let (a, b, c) = (p[0], p[1], p[2]);
+            (Box::new(move |x| if x <= a { 0.0 } else if x >= b { 1.0 } else if x <= c { (x - a) * (x - a) / ((b - a) * (c - a)) } else { 1.0 - (b - x) * (b - x) / ((b - a) * (b - c)) }),
+             Box::new(move |x| if x < a || x > b { 0.0 } else if x < c { 2.0 * (x - a) / ((b - a) * (c - a)) } else if x > c { 2.0 * (b - x) / ((b - a) * (b - c)) } else { 2.0 / (b - a) })) }
+        other => return format!("badfamily:{}", other),
+    };
+    let nn = s.len() as f64;
+    let (mut dmax, mut arg, mut m) = (0.0f64, 0usize, 0.0f64);
+    for (k, &x) in s.iter().enumerate() {
+        let f = if x == f64::INFINITY { 1.0 } else if x == f64::NEG_INFINITY { 0.0 } else { cdf(x) };
+        let dev = (f - (k as f64 + 1.0) / nn).abs().max((f - k as f64 / nn).abs());
+        if dev > dmax { dmax = dev; arg = k; }
+        if x.is_finite() { let xf = x.abs() * pdf(x); if xf.is_finite() && xf > m { m = xf; } }
+    }
+    let bound = (1.5 + 8.0 * m) / 16777216.0;
+    format!("D={:e} bound={:e} M={:e} nonfinite={} argmax={}:{:e}", dmax, bound, m, nonfinite, arg, s[arg])
+}
